@@ -35,6 +35,21 @@ LEVEL_NOTE = ('trusted: Coq kernel/vm_compute; reference binding = inspect.getca
               'declares **kwargs (documented, relied upon by Dict.apply / kwpartial)')
 TECHNIQUE = 'Coq proof (induction over parameter lists, wrapper chains and call sequences; refinement of the dict-update implementation to the binding spec) + differential correspondence in vm_compute'
 
+# variants of the try_value and loops wrapper types (same wrapper class, other parameters)
+FALLBACK = {'try_none': None, 'try_zero': 0, 'try_nan': 'NaN', 'try_true': True, 'try_false': False, 'try_list': []}
+FALLBACK_J = {'try_none': 'JNone', 'try_zero': '(JZ 0)', 'try_nan': '(JS "NaN")', 'try_true': '(JS "True")', 'try_false': '(JS "False")', 'try_list': '(JL [])'}
+LOOPV = ['loop', 'loop_dict', 'loop_tuple_dict', 'loop_all']
+# argument VALUES of other kinds: the int v of a case stands for KOBJ[v]; results are translated back, so the model stays over ints
+KOBJ = {1: 'one', 2: 'two', 3: 2.5, 4: (1, 2), 5: {'x': 1}, 6: (3,), 10: -7.25, 11: float('inf'), 12: b'x', 13: frozenset({1}), 14: '', 15: b''}     # no value that is also a try_* fallback
+_KINDS = [False]
+def encode_kind(v):
+    return KOBJ.get(v, v)
+def uncode(x):
+    if not _KINDS[0] or type(x) is int: return x
+    for v, o in KOBJ.items():
+        if type(o) is type(x) and o == x: return v
+    return x
+
 NAMES = ['a', 'b', 'c', 'd']
 UNDECL = 'zz'
 DECOS = ['try_none', 'try_back', 'kwargs_support', 'cache', 'loop', 'pd2np']
@@ -71,7 +86,8 @@ def coq_case(case):
     if k == 'tryhist':
         return '(%s, [%s])' % (coq_av(case['value']), '; '.join('true' if b else 'false' for b in case['steps']))
     if k == 'stack':
-        return '([%s], %s, %s, %s)' % ('; '.join(TAG[d] for d in case['decos']), coq_sig(case), 'true' if case['raises'] else 'false', coq_call(case))
+        return '([%s], %s, %s, %s, %s)' % ('; '.join(TAG[d] for d in case['decos']), coq_sig(case), 'true' if case['raises'] else 'false', coq_call(case),
+                                         FALLBACK_J[case.get('tryv', 'try_none')])
     return '([%s], [%s])' % ('; '.join(coq_av(r) for r in ret_pool(case)),
                              '; '.join('([%s], [%s])' % ('; '.join(coq_av(a) for a in c['args']), '; '.join('(%s, %s)' % (coq_str(k), coq_av(v)) for k, v in c['kw'])) for c in case['calls']))
 
@@ -86,16 +102,19 @@ def impl_setup():
     from pyg_base._decorators import kwargs_support, try_none, try_back, wrapper
     from pyg_base._cache import cache
     from pyg_base import loop, pd2np
-    D = {'try_none': try_none, 'try_back': try_back, 'kwargs_support': kwargs_support, 'cache': cache, 'loop': loop(list), 'pd2np': pd2np}
+    import pyg_base
+    D = {'try_none': try_none, 'try_back': try_back, 'kwargs_support': kwargs_support, 'cache': cache, 'loop': loop(list), 'pd2np': pd2np,
+         'try_zero': pyg_base.try_zero, 'try_nan': pyg_base.try_nan, 'try_true': pyg_base.try_true, 'try_false': pyg_base.try_false, 'try_list': pyg_base.try_list,
+         'loop_dict': loop(dict), 'loop_tuple_dict': loop(tuple, dict), 'loop_all': pyg_base.loop_all}
 
 def _bv(v):
-    if isinstance(v, tuple): return ['t'] + list(v)
-    if isinstance(v, dict): return ['d', [[k, v[k]] for k in sorted(v)]]
+    if isinstance(v, tuple): return ['t'] + [uncode(x) for x in v]
+    if isinstance(v, dict): return ['d', [[k, uncode(v[k])] for k in sorted(v)]]
     return v
 def canon_binding(d):
     return [[k, _bv(d[k])] for k in sorted(d)]
 def BIND(named, args, kw):
-    d = dict(named)
+    d = {k: uncode(v) for k, v in named.items()}
     if args is not None: d['args'] = args
     if kw is not None: d['kw'] = kw
     return canon_binding(d)
@@ -116,9 +135,12 @@ def outcome(f, *a, **k):
     except Exception as e:
         return err_name(e) if type(e).__name__ != 'ZeroDivisionError' else 'ZeroDivisionError', None
 def obs_of(st, r):
-    return r if st == 'ok' else ['ERR', st]
+    if st != 'ok': return ['ERR', st]
+    if isinstance(r, float) and r != r: return 'NaN'
+    return r if isinstance(r, list) else uncode(r)
 
 def impl_bind(case):
+    _KINDS[0] = False
     f = make_f(case)
     a = tuple(case['args']); k = dict((x, y) for x, y in case['kw'])
     try:
@@ -156,11 +178,15 @@ def chain_of(w):
 def impl_stack(case):
     decos = case['decos']
     f = make_f(case, case['raises'])
+    variant = {'try_none': case.get('tryv', 'try_none'), 'loop': case.get('loopv', 'loop')}
+    DD = lambda d: D[variant.get(d, d)]
     def mk():
         w = f
-        for d in decos: w = D[d](w)
+        for d in decos: w = DD(d)(w)
         return w
-    a = tuple(case['args']); k = dict((x, y) for x, y in case['kw'])
+    _KINDS[0] = bool(case.get('kinds'))
+    enc = encode_kind if case.get('kinds') else (lambda v: v)
+    a = tuple(enc(x) for x in case['args']); k = dict((x, enc(y)) for x, y in case['kw'])
     w = mk()
     chain = chain_of(w)
     st, r = outcome(w, *a, **k)
@@ -169,8 +195,12 @@ def impl_stack(case):
         spec_ok = not (getargspec(w) != inspect.getfullargspec(f) and dict(getargspec(w)) != inspect.getfullargspec(f)._asdict())
     except Exception:
         spec_ok = False
-    again_outer = chain_of(D[decos[-1]](mk()))
-    again_inner = chain_of(D[decos[0]](mk()))
+    again_outer = chain_of(DD(decos[-1])(mk()))
+    again_inner = chain_of(DD(decos[0])(mk()))
+    try:
+        same_object = bool(DD(decos[-1])(mk()) == mk())        # W(W(f)) == W(f) as the library compares wrappers
+    except Exception:
+        same_object = False
     obs = [chain, again_outer, again_inner, obs_of(st, r), obs_of(stf, rf), spec_ok]
     # ---- oracle
     viol = None
@@ -182,6 +212,7 @@ def impl_stack(case):
     elif again_inner != [TYPE_OF[decos[0]]] + [x for x in chain if x != TYPE_OF[decos[0]]]:
         viol = 'wrapping %r again with %s through the chain gives %r' % (decos, decos[0], again_inner)
     elif not spec_ok: viol = 'getargspec of the stack %r differs from that of %s' % (decos, sig_text(case))
+    elif not same_object: viol = 'W(W(f)) == W(f) is False for the stack %r re-wrapped with %s' % (decos, decos[-1])
     try:
         inspect.getcallargs(f, *a, **k); valid = True
     except TypeError:
@@ -206,13 +237,13 @@ def impl_stack(case):
             if st0 == 'ok':
                 want = ('ok', r0)
             elif tries:                                                    # the innermost try_* supplies its fallback
-                if tries[0] == 'try_none': want = ('ok', None)
+                if tries[0] == 'try_none': want = ('ok', FALLBACK[variant['try_none']])
                 elif a: want = ('ok', a[0])
                 elif declared and declared[0] in k: want = ('ok', k[declared[0]])
                 else: want = None
             else:
                 want = (st0, None)
-            if want is not None and (st, r) != want:
+            if want is not None and (st, obs_of(st, r)) != (want[0], obs_of(*want)):
                 if 'kwargs_support' in decos and undeclared and case['vk'] and st == 'ok' and r == outcome(f, *a, **{x: y for x, y in k.items() if x in declared})[1]:
                     viol = 'kwargs_support dropped the undeclared keyword(s) %r although %s declares **kw: stack %r returned %r, f returns %r' % (undeclared, sig_text(case), decos, r, r0)
                     kws_finding = True
@@ -383,11 +414,17 @@ def gen_cases(rng, tier):
     for sig, call in (rng.sample(special_valid, min(len(special_valid), 250)) if quick else special_valid):
         cases.append(dict(kind='stack', decos=[rng.choice(DECOS)], raises=False, **sig, **call))
     # single decorators on every valid call; the raising variant on a sample
+    def vary(case):
+        """other variants of the same wrapper types, and argument values of other kinds (None, str, float, tuple, dict, bool, inf, bytes, frozenset)"""
+        if 'try_none' in case['decos'] and rng.random() < 0.4: case['tryv'] = rng.choice(list(FALLBACK))
+        if 'loop' in case['decos'] and rng.random() < 0.4: case['loopv'] = rng.choice(LOOPV)
+        if rng.random() < 0.3: case['kinds'] = True
+        return case
     for d in DECOS:
         for sig, call in valid:
-            cases.append(dict(kind='stack', decos=[d], raises=False, **sig, **call))
+            cases.append(vary(dict(kind='stack', decos=[d], raises=False, **sig, **call)))
             if rng.random() < (0.1 if quick else 0.5):
-                cases.append(dict(kind='stack', decos=[d], raises=True, **sig, **call))
+                cases.append(vary(dict(kind='stack', decos=[d], raises=True, **sig, **call)))
     # every stack of 2 and 3 decorators on sampled calls (valid ones, and ones with an undeclared keyword)
     with_undecl = [(s, c) for s, c in valid if any(x == UNDECL for x, _ in c['kw'])]
     kws_ok = []
@@ -402,7 +439,7 @@ def gen_cases(rng, tier):
             for _ in range(m):
                 r = rng.random()
                 sig, call = rng.choice(valid if r < 0.6 else with_undecl if r < 0.75 else kws_ok if 'kwargs_support' in decos else valid)
-                cases.append(dict(kind='stack', decos=list(decos), raises=rng.random() < 0.35, **sig, **call))
+                cases.append(vary(dict(kind='stack', decos=list(decos), raises=rng.random() < 0.35, **sig, **call)))
     # cache histories
     for _ in range(400 if quick else 6000):
         n = rng.choice([2, 3, 4, 6, 8])
@@ -420,6 +457,11 @@ def gen_cases(rng, tier):
         if rng.random() < 0.7:          # what the evaluations return: falsy / None / NaN values must be cached like any other
             case['rets'] = [rng.choice(RET_POOL) for _ in calls]
         cases.append(case)
+    for _ in range(3 if quick else 20):     # long histories: 150-400 calls over few distinct combinations
+        m = rng.choice([150, 250, 400]) if not quick else 150
+        calls = [{'args': [rng.randrange(12)] + ([{'l': [rng.randrange(3)]}] if rng.random() < 0.3 else []),
+                  'kw': ([['k', rng.choice([1, {'f': 1}, None, {'t': [1]}, {'l': [1]}])]] if rng.random() < 0.3 else [])} for _ in range(m)]
+        cases.append({'kind': 'cache', 'calls': calls})
     for r0 in RET_POOL:                 # f returns r0 once, the same call repeated three times
         for c0 in ({'args': [], 'kw': []}, {'args': [1], 'kw': []}, {'args': [{'l': [1]}], 'kw': [['k', None]]}):
             cases.append({'kind': 'cache', 'calls': [c0, c0, c0], 'rets': [r0, 5, 6]})
